@@ -3,6 +3,8 @@ import SeqIoModel.Model.Spec
 import SeqIoModel.Model.Write
 import SeqIoModel.Model.Utf8
 import SeqIoModel.Model.Serde
+import SeqIoModel.Model.History
+import SeqIoModel.Model.HistoryFq
 import SeqIoModel.Model.ParallelCheck
 /-!
 # Model driver: line protocol
@@ -379,6 +381,163 @@ def runOps {σ : Type} (step : σ → Op → σ × String) (logLen : σ → Nat)
     let x := if logLen s' ≠ logLen acc.1 then x ++ s!"#{logLen s'}" else x
     (s', if x = "" then acc.2 else x :: acc.2)) (s, [])
 
+/-! ## tie of `Model/History.lean` (the machine and acceptor the history theorems are about) to the
+driver's machine: same observations on the same history -/
+
+namespace FaHist
+open Fasta.Hist
+
+def toHistOp (inp : List UInt8) : Op → Option Fasta.Hist.Op
+  | .next => some .next
+  | .owned => some .owned
+  | .set j => if j < 3 then some (.set j none) else none
+  | .exact j n => if j < 3 ∧ n ≥ 1 then some (.set j (some n)) else none
+  | .dump j => if j < 3 then some (.dump j) else none
+  | .pos => some .pos
+  | .seekTo l b =>
+    ((items inp).recs.findIdx? (fun rc => rc.line = l ∧ rc.byte = b)).map .seekRec
+  | _ => none
+
+def base (tok : String) : String := (tok.splitOn "#").headD ""
+
+def matchTok (tok : String) : ObsH → Bool
+  | .record h ls => (base tok).startsWith ("R:h=" ++ hexOf h ++ ":l=" ++ Fa.linesStr ls ++ ":")
+  | .owned h s => base tok == "O:h=" ++ hexOf h ++ ":s=" ++ hexOf s
+  | .batch m => base tok == s!"S{m}"
+  | .dump recs =>
+    let t := base tok
+    if !t.startsWith "I:" then false
+    else
+      let parts := if t == "I:" then [] else ((t.drop 2).toString.splitOn "/")
+      parts.length == recs.length &&
+        (parts.zip recs).all fun (p, r) => p.startsWith ("h=" ++ hexOf r.1 ++ ":l=" ++ Fa.linesStr r.2 ++ ":")
+  | .pos none => base tok == "P-"
+  | .pos (some (l, b)) => base tok == s!"P{l}.{b}"
+  | .done => base tok == "K"
+  | .none => base tok == "N"
+  | .error e => (base tok).startsWith ("E:" ++ ((Fa.errStr e).splitOn "/m=").headD "")
+  | .panic => base tok == "PANIC"
+  | .fuel => base tok == "HANG"
+
+def parsePosTok (t : String) : Option (Nat × Nat) :=
+  match ((base t).drop 1).toString.splitOn "." with
+  | [l, b] => match l.toNat?, b.toNat? with
+    | some l, some b => some (l, b)
+    | _, _ => none
+  | _ => none
+
+/-- translate the driver's history (with position slots) into the history model's operations;
+`none` = outside its language (set_policy, seek to something that is not a record position, …) -/
+def translate (inp : List UInt8) : List (Op × String) → List (Option (Nat × Nat)) →
+    Option (List (Fasta.Hist.Op × String))
+  | [], _ => some []
+  | (op, tok) :: rest, slots =>
+    match op with
+    | .capture r =>
+      let slots' := if (base tok) == "C-" then slots else slots.set r (parsePosTok tok)
+      (translate inp rest slots').map (((.pos : Fasta.Hist.Op), "P" ++ ((base tok).drop 1).toString) :: ·)
+    | .seekSlot r =>
+      match slots[r]? with
+      | some (some (l, b)) =>
+        match (items inp).recs.findIdx? (fun rc => rc.line = l ∧ rc.byte = b) with
+        | some i => (translate inp rest slots).map ((.seekRec i, tok) :: ·)
+        | none => none
+      | _ => if base tok == "K?" then translate inp rest slots else none
+    | op =>
+      match toHistOp inp op with
+      | some h => (translate inp rest slots).map ((h, tok) :: ·)
+      | none => none
+
+/-- "H=1": `Hist.runM` shows what the driver's machine shows; "A=1": the abstract reader accepts it -/
+def check (inp : List UInt8) (cap : Nat) (pol : Pol) (script : List ReadEv) (chunk : Nat)
+    (ops : List Op) (toks : List String) : String :=
+  if ops.length != toks.length then "" else
+  match translate inp (ops.zip toks) [none, none, none, none] with
+  | none => ""
+  | some pairs =>
+    let hops := pairs.map (·.1)
+    let toks := pairs.map (·.2)
+    let obs := runM (mkMSt inp cap pol script chunk) hops
+    let h := obs.length == toks.length && (toks.zip obs).all fun (t, o) => matchTok t o
+    -- the abstract reader specifies failure-free sources and policies that never refuse
+    let clean := script.all (fun e => match e with | .fail _ => false | _ => true) &&
+      toks.all (fun t => !(base t).startsWith "E:bl")
+    let a := !clean || runA (items inp) aInit hops obs
+    s!" H={if h then 1 else 0} A={if a then 1 else 0}"
+
+end FaHist
+
+namespace FqHist
+open Fastq.Hist
+
+def itemIdx (inp : List UInt8) (l b : Nat) : Option Nat :=
+  (Spec.fastq inp).findIdx? (fun it => itemPos it = (l, b))
+
+def translate (inp : List UInt8) : List (Op × String) → List (Option (Nat × Nat)) →
+    Option (List (Fastq.Hist.Op × String))
+  | [], _ => some []
+  | (op, tok) :: rest, slots =>
+    let cont (h : Fastq.Hist.Op) (t : String) (sl : List (Option (Nat × Nat))) :=
+      (translate inp rest sl).map ((h, t) :: ·)
+    match op with
+    | .next => cont .next tok slots
+    | .owned => cont .owned tok slots
+    | .set j => if j < 3 then cont (.set j none) tok slots else none
+    | .exact j n => if j < 3 ∧ n ≥ 1 then cont (.set j (some n)) tok slots else none
+    | .dump j => if j < 3 then cont (.dump j) tok slots else none
+    | .pos => cont .pos tok slots
+    | .capture r => cont .pos ("P" ++ ((FaHist.base tok).drop 1).toString) (slots.set r (FaHist.parsePosTok tok))
+    | .seekSlot r =>
+      match slots[r]? with
+      | some (some (l, b)) =>
+        match itemIdx inp l b with
+        | some i => cont (.seekItem i) tok slots
+        | none => none
+      | _ => if FaHist.base tok == "K?" then translate inp rest slots else none
+    | .seekTo l b =>
+      match itemIdx inp l b with
+      | some i => cont (.seekItem i) tok slots
+      | none => none
+    | _ => none
+
+def recPrefix (x : Rec) : String := "h=" ++ hexOf x.head ++ ":s=" ++ hexOf x.seq ++ ":q=" ++ hexOf x.qual
+
+def matchTok (tok : String) : ObsH → Bool
+  | .record x =>
+    let t := FaHist.base tok
+    t.startsWith ("R:" ++ recPrefix x ++ ":") || t == "O:" ++ recPrefix x
+  | .batch m => FaHist.base tok == s!"S{m}"
+  | .dump recs =>
+    let t := FaHist.base tok
+    if !t.startsWith "I:" then false
+    else
+      let parts := if t == "I:" then [] else ((t.drop 2).toString.splitOn "/")
+      parts.length == recs.length && (parts.zip recs).all fun (p, r) => p.startsWith (recPrefix r ++ ":")
+  | .position l b => FaHist.base tok == s!"P{l}.{b}"
+  | .done => FaHist.base tok == "K"
+  | .badOp => false
+  | .none => FaHist.base tok == "N"
+  | .error e => (FaHist.base tok).startsWith ("E:" ++ ((Fq.errStr e).splitOn "/m=").headD "")
+  | .panic => FaHist.base tok == "PANIC"
+  | .fuel => FaHist.base tok == "HANG"
+
+def check (inp : List UInt8) (cap : Nat) (pol : Pol) (script : List ReadEv) (chunk : Nat)
+    (sf : List (Nat × Nat)) (ops : List Op) (toks : List String) : String :=
+  if ops.length != toks.length then "" else
+  match translate inp (ops.zip toks) [none, none, none, none] with
+  | none => ""
+  | some pairs =>
+    let hops := pairs.map (·.1)
+    let toks := pairs.map (·.2)
+    let obs := runM (mkM inp cap pol script chunk sf) hops
+    let h := obs.length == toks.length && (toks.zip obs).all fun (t, o) => matchTok t o
+    let clean := sf.isEmpty && script.all (fun e => match e with | .fail _ => false | _ => true) &&
+      toks.all (fun t => !(FaHist.base t).startsWith "E:bl")
+    let a := !clean || acceptsA (Spec.fastq inp) {} hops obs
+    s!" H={if h then 1 else 0} A={if a then 1 else 0}"
+
+end FqHist
+
 /-- `R <fmt> <cap> <pol> <chunk> <script> <seekfails> <inputhex> <ops>` -/
 def runReaderCase (toks : List String) : Option (String × String) :=
   match toks with
@@ -393,11 +552,13 @@ def runReaderCase (toks : List String) : Option (String × String) :=
     if fmt = "fa" then
       let r := Fasta.mkReader inp cap pol.toPol script chunk sf
       let (s, outs) := runOps Fa.step (fun s => s.r.log.length) ({ r := r } : Fa.St) ops
-      some (";".intercalate outs.reverse ++ " L=" ++ logStr s.r.log, Fa.specStr inp)
+      let hist := if sf.isEmpty && !s.dead then FaHist.check inp cap pol.toPol script chunk ops outs.reverse else ""
+      some (";".intercalate outs.reverse ++ " L=" ++ logStr s.r.log, Fa.specStr inp ++ hist)
     else if fmt = "fq" then
       let r := Fastq.mkReader inp cap pol.toPol script chunk sf
       let (s, outs) := runOps Fq.step (fun s => s.r.log.length) ({ r := r } : Fq.St) ops
-      some (";".intercalate outs.reverse ++ " L=" ++ logStr s.r.log, Fq.specStr inp)
+      let hist := if !s.dead then FqHist.check inp cap pol.toPol script chunk sf ops outs.reverse else ""
+      some (";".intercalate outs.reverse ++ " L=" ++ logStr s.r.log, Fq.specStr inp ++ hist)
     else none
   | _ => none
 
